@@ -56,8 +56,11 @@ def check(ctx, env):
         "index/slice/copy site is dominated by a covering check_buffer_boundaries fact or is in the reviewed budget, so a "
         "short buffer yields Err, never a panic; (R14.2) no unchecked narrow (u8/u16) arithmetic on lengths in either MIR "
         "shape (overflow checks on and off), which is what made the 16-bit length wrap before the fix; (R14.3) encode "
-        "contract of the fixed-size encoders: checked length = returned size. Untouched tail bytes and correctness of the "
-        "bytes of a fitting message are NOT decided.")
+        "contract of the fixed-size encoders: checked length = returned size; (R14.5) must-write coverage: on every Ok(n) path "
+        "of every attribute-value encoder the written byte ranges, chained as linear forms, cover [0, n), so the encoded bytes "
+        "cannot depend on the buffer's previous contents (whole-slice writes of unknown extent are excluded by R14.3, hence "
+        "nothing beyond the value is written by the value encoders). Correctness of the bytes of a fitting message is NOT "
+        "decided.")
     ctx.assumptions = ["rustc MIR", "std functions outside MAY_PANIC do not panic", "reviewed budget anchors/panic_budget.json"]
     ctx.rule("R14.1", "no reachable panic from MessageEncoder::encode (any buffer length): every site discharged or budgeted")
     ctx.rule("R14.2", "no u8/u16 Add/Sub/Mul reachable from encode whose operand bounds do not fit the type (both MIR shapes)")
@@ -142,6 +145,11 @@ def check(ctx, env):
                 ("reviewed exception: %s (%s)" % (be["reason"], probs[0]) if be else "; ".join(probs[:2]))), b.where(),
                replay=None if ok else {"function": b.path, "site": "encode-contract", "undischarged": [{"line": None, "why": x, "callee": None} for x in probs], "budget": 0})
     ctx.floor("R14.4", "encoder impls verified", nimpl, 45)
+    # R14.5 must-write coverage of every encoder (looping encoders: their dedicated rules, evaluated here as well)
+    from . import coverage_rules, c01, c02
+    coverage_rules.r14_5_write_coverage(ctx, prog)
+    c02.r2_7_u16_list(ctx, prog, rule="R14.5")
+    c01.r1_6_nested_padding(ctx, prog, rule="R14.5")
     # the running length of the encoder is a usize converted with u16::try_from (D5 repair)
     enc = entries[0]
     l16 = []
